@@ -86,7 +86,10 @@ static Plan gen_sched(const std::string &prop, const std::string &tier, uint64_t
 		} else {
 			// finish: 0 iterate, 1 sorter_write, 2 destroy with chunk jobs possibly in flight
 			uint64_t f = r.below(10);
-			p.op("task", { std::to_string(t), "sorter", std::to_string(r.chance(1, 5) ? 1 : 64 + r.below(900)), std::to_string(f < 5 ? 0 : f < 7 ? 1 : 2) });
+			// failing merges (1 task in 5): the callback refuses some pairs inside pooled chunk jobs; such a sorter is then
+			// destroyed without iterating (iterating after a failed chunk stops on an assertion today, outside the properties)
+			bool failF = r.chance(1, 5);
+			p.op("task", { std::to_string(t), "sorter", std::to_string(r.chance(1, 5) ? 1 : 64 + r.below(900)), std::to_string(failF ? 2 : f < 5 ? 0 : f < 7 ? 1 : 2), failF ? "1" : "0" });
 			gen_task_adds(p, r, t, r.chance(1, 8) ? r.below(3) : 4 + r.below(70), false, 20);
 		}
 	}
@@ -99,6 +102,7 @@ namespace {
 struct JobRec { int task; int seq; int yields; int ran; int delivered; };
 
 struct Task {
+	bool failF = false;
 	int id = 0;
 	std::string kind;
 	bool ordered = true;
@@ -178,6 +182,12 @@ static void *task_main(void *arg)
 		SorterSpec s;
 		s.max_mem = t.max_mem; s.tmpdir = t.tmpdir; s.pool = pool; s.finish = t.finish; s.stateless_merge = true;
 		s.yield_between = true; s.adds = t.adds; s.outpath = t.path;
+		if (t.failF) {
+			s.fail_on_F = true;
+			size_t q = 0;
+			for (auto &kv : s.adds) if ((q++ * 7 + kv.first.size()) % 3 == 0) kv.second.insert(0, "F");	// a third of the values
+			t.res.probes["pooled-sorter-with-failing-merge"]++;
+		}
 		SorterOutcome out;
 		run_sorter(s, t.res, out);
 	} else if (t.kind == "reader") {
@@ -209,7 +219,7 @@ static RunResult exec_sched(const Plan &p)
 			k.id = (int)t; k.kind = o.arg(1);
 			if (k.kind == "api") k.ordered = o.argi(2) != 0;
 			if (k.kind == "writer") { k.comp = (int)(o.argi(2) % 6); k.bsize = (size_t)o.argi(3, 1024); k.rint = (size_t)(o.argi(4, 16) > 0 ? o.argi(4, 16) : 1); }
-			if (k.kind == "sorter") { k.max_mem = (size_t)o.argi(2, 1); k.finish = (int)(o.argi(3) % 3); }
+			if (k.kind == "sorter") { k.max_mem = (size_t)o.argi(2, 1); k.finish = (int)(o.argi(3) % 3); k.failF = o.argi(4) != 0; if (k.failF) k.finish = 2; }
 		} else if (o.name == "job" && t < MAXTASK && used[t] && tasks[t].kind == "api") {
 			JobRec *j = new JobRec{ (int)t, (int)tasks[t].jobs.size(), (int)(o.argi(1) % 8), 0, 0 };
 			tasks[t].jobs.push_back(j);
